@@ -120,8 +120,15 @@ _FOUND = multiprocessing.Value("i", 0)
 SOFT_DEADLINE = {"quick": 100, "thorough": 2400}
 
 
+# run indexes this process has executed so far, as [first, last] ranges in execution order: if a
+# violation only shows after what ran before it (state kept by the code under test between
+# scenarios), this history is what has to be replayed
+_HISTORY = []
+
+
 def _work(args):
     prop, tier, verif_seed, start, stop, audit_mod, wall, t_batch = args
+    _HISTORY.append([start, start - 1])
     faulthandler.dump_traceback_later(wall, exit=True)
     try:
         open_sigs = set((e.get("oracle"), e.get("where")) for e in findings.load()
@@ -138,6 +145,7 @@ def _work(args):
             if _FOUND.value and _real_time.time() - t_batch > SOFT_DEADLINE[tier]:
                 agg["skipped"] = stop - i
                 break
+            _HISTORY[-1][1] = i
             try:
                 scs = make_scenarios(h, prop, tier, verif_seed, i)
             except Exception:
@@ -176,7 +184,8 @@ def _work(args):
                         _FOUND.value = 1
                     cur = agg["violations"].get(sig)
                     if cur is None:
-                        agg["violations"][sig] = {"cands": [(i, sc, v)], "count": 1}
+                        agg["violations"][sig] = {"cands": [(i, sc, v)], "count": 1,
+                                                  "hist": [(i, sc["_run"]["variant"], [list(r) for r in _HISTORY])]}
                     else:
                         cur["count"] += 1
                         if len(cur["cands"]) < N_CANDS and cur["cands"][-1][0] != i:
@@ -206,9 +215,10 @@ def _merge(total, part):
     for sig, rec in part["violations"].items():
         cur = vs.get(sig)
         if cur is None:
-            vs[sig] = {"cands": list(rec["cands"]), "count": rec["count"]}
+            vs[sig] = {"cands": list(rec["cands"]), "count": rec["count"], "hist": list(rec.get("hist", []))}
         else:
             cur["count"] += rec["count"]
+            cur["hist"] = (cur.get("hist", []) + list(rec.get("hist", [])))[:4]
             cur["cands"] = sorted(cur["cands"] + rec["cands"], key=lambda c: c[0])[:N_CANDS]
 
 
@@ -270,12 +280,15 @@ def replay_path(prop, sig, seed):
     return os.path.join(d, name)
 
 
-def write_replay(prop, tier, verif_seed, sc, v, res_digest, shrink_steps, minimised):
+def write_replay(prop, tier, verif_seed, sc, v, res_digest, shrink_steps, minimised, history=None):
     doc = {
         "property": prop, "harness_version": HARNESS_VERSION, "verif_seed": verif_seed,
         "tier": tier, "run": sc.get("_run"), "scenario": {k: x for k, x in sc.items() if k != "_run"},
         "violation": v, "digest": res_digest, "minimised": minimised, "shrink_steps": shrink_steps,
     }
+    if history is not None:
+        # scenarios to execute first, in this order and in the same process
+        doc["history"] = history
     path = replay_path(prop, signature(v), (sc.get("_run") or {}).get("seed", 0))
     with open(path, "w") as f:
         json.dump(doc, f, indent=1, sort_keys=True, default=str)
@@ -290,10 +303,12 @@ def do_replay(prop, path, quiet=False):
     with open(path) as f:
         doc = json.load(f)
     sc = doc["scenario"]
+    for earlier in doc.get("history") or []:
+        execute(h, earlier)
     res = execute(h, sc)
     want = (doc["violation"]["oracle"], doc["violation"]["where"])
     got = [v for v in res.violations if signature(v) == want]
-    return bool(got), res.digest == doc["digest"], res.violations, res.digest
+    return bool(got), doc["digest"] is None or res.digest == doc["digest"], res.violations, res.digest
 
 
 # --------------------------------------------------------------------------------------------
@@ -353,6 +368,72 @@ def _verify_in_child(prop, sc, sig):
         h.setup()
     res = execute(h, sc)
     return any(signature(v) == tuple(sig) for v in res.violations)
+
+
+def _run_history(h, scenarios, sig):
+    """Executes the scenarios in order in this process; the LAST one must show the signature."""
+    res = None
+    for sc in scenarios:
+        res = execute(h, sc)
+    return res is not None and any(signature(v) == tuple(sig) for v in res.violations), res
+
+
+def _verify_history_in_child(prop, scenarios, sig):
+    h = load(prop)
+    if hasattr(h, "setup"):
+        h.setup()
+    return _run_history(h, scenarios, sig)[0]
+
+
+def _history_scenarios(h, prop, tier, verif_seed, ranges, last_index, last_variant):
+    """The scenarios a worker executed, in order, up to and including (last_index, last_variant)."""
+    out = []
+    for a, b in ranges:
+        for i in range(a, b + 1):
+            for sc in make_scenarios(h, prop, tier, verif_seed, i):
+                out.append(sc)
+                if i == last_index and sc["_run"]["variant"] == last_variant:
+                    return out
+    return out
+
+
+def _minimise_history(prop, scenarios, sig, budget=60):
+    """ddmin over the scenarios BEFORE the last one (each test: a pristine child running the list)."""
+    from . import zygote
+    head, last = scenarios[:-1], scenarios[-1]
+    tests = [0]
+
+    def fails(hd):
+        tests[0] += 1
+        try:
+            return zygote.reference("dsim.runner", "_verify_history_in_child", prop, hd + [last], list(sig))
+        except RuntimeError:
+            return False
+
+    n = 2
+    while len(head) >= 1 and tests[0] < budget:
+        chunk = max(1, len(head) // n)
+        reduced = False
+        # keeping one chunk first (the state-setting scenario is usually a single one), then dropping one
+        for i in range(0, len(head), chunk):
+            if tests[0] >= budget:
+                break
+            if len(head) > chunk and fails(head[i:i + chunk]):
+                head, n, reduced = head[i:i + chunk], 2, True
+                break
+        if not reduced:
+            for i in range(0, len(head), chunk):
+                if tests[0] >= budget:
+                    break
+                cand = head[:i] + head[i + chunk:]
+                if fails(cand):
+                    head, n, reduced = cand, max(2, n - 1), True
+                    break
+        if not reduced:
+            if chunk == 1:
+                break
+            n = min(len(head), n * 2)
+    return head + [last], tests[0]
 
 
 def run_check(prop, tier, verif_seed, runs=None, workers=None):
@@ -449,6 +530,32 @@ def run_check(prop, tier, verif_seed, runs=None, workers=None):
                     break
             if path is not None:
                 break
+        if path is None:
+            # No scenario shows this signature by itself.  Does one show it after what its worker had
+            # executed before it?  Then the code under test carries state from one scenario to the
+            # next, and the replay file is that history (minimised), not a single scenario.
+            for li, lv, ranges in rec.get("hist", [])[:2]:
+                try:
+                    hist = _history_scenarios(h, prop, tier, verif_seed, ranges, li, lv)
+                    if not hist or len(hist) > 60000:
+                        continue
+                    if not zygote.reference("dsim.runner", "_verify_history_in_child", prop, hist, list(sig)):
+                        continue
+                    hist, steps = _minimise_history(prop, hist, sig)
+                except RuntimeError:
+                    continue
+                ok_, res_ = True, None
+                v_ = {"oracle": sig[0], "where": sig[1], "detail": "(shows only after the scenarios listed under 'history' ran in the same process)"}
+                pth = write_replay(prop, tier, verif_seed, hist[-1], v_, None, steps, True,
+                                   history=[{k: x for k, x in s_.items() if k != "_run"} for s_ in hist[:-1]])
+                p = _fresh([prop, "--replay", pth], hashseed=777, timeout=900)
+                if p.returncode == 1 and "REPRODUCED" in p.stdout:
+                    for l_ in p.stdout.splitlines():
+                        if l_.startswith("  violation oracle=%s where=%s " % sig):
+                            v_["detail"] = "after %d earlier scenario(s) in the same process: %s" % (len(hist) - 1, l_.split(" detail=", 1)[-1])
+                            break
+                    path, small, vv = pth, hist[-1], [v_]
+                    break
         if path is None:
             unreproducible.append((sig, rec["cands"][0][0]))
             continue
